@@ -21,6 +21,8 @@ pub mod c05;
 pub mod c06;
 #[cfg(feature = "c10")]
 pub mod c10;
+#[cfg(feature = "c12")]
+pub mod c12;
 #[cfg(feature = "c13")]
 pub mod c13;
 #[cfg(feature = "c14")]
